@@ -27,6 +27,15 @@ struct DocModel {
 }
 
 fn word(rng: &mut Rng, st: &mut Stats) -> String {
+    if rng.chance(1, 12) {
+        // a word the library's own source mentions
+        if let Some(w) = crate::vocab::word(rng) {
+            if !w.is_empty() && !w.starts_with('<') || w == "<p>" {
+                st.inc("doc_words.from_source_dictionary");
+                return w;
+            }
+        }
+    }
     match rng.below(10) {
         0..=4 => rng.pick_str(ASCII_WORDS).to_string(),
         5 | 6 => {
